@@ -620,7 +620,7 @@ fn main() {
     ctx.set_rule(
         "cases = (design of the catalogue, per-column (offset, scale) image, variant, float type, estimator, target columns, penalty, l1_ratio, intercept, tol). \
          Catalogue: full-factorial and fractional lattice designs with n in {4,6,9,12}, p in {1,2,3} (ids in coverage.designs), each column centred and mapped to (z + offset) * scale with \
-         offset in {0, 5, -100} lattice units and scale in {1e-3, 1, 1e3}: every column sees every (offset, scale) pair (p = 1: all 9; p >= 2: the 9 'same for all columns' images, and for the designs marked per_column in coverage.image_modes additionally 8 per column with the other columns at (0, 1)); \
+         offset in {0, 5, -100} lattice units and scale in {1e-3, 1, 1e3}: every column sees every (offset, scale) pair (p = 1: all 9; p >= 2: the 9 'same for all columns' images, for the designs marked PerColumn in coverage.image_modes additionally 8 per column with the other columns at (0, 1), for those marked Cross the full 9^p product); \
          variants: an appended constant column (0, 1 or 5000) and an appended duplicate of column 0, run only with penalty > 0 and l1_ratio < 1; targets = fixed linear function of the centred lattice coordinates + constant + fixed noise table, 3 columns. \
          plus 'even_targets' members (integer targets that are an even function of column 0, so column 0 is exactly orthogonal to them). \
          Estimators: OLS (each target column, intercept on / off), ElasticNet (single target columns), MultiTaskElasticNet (first 1..3 target columns; quick: all 3); grid penalty {0,.01,.1,1,10} x l1_ratio {0,.5,1} x intercept {on,off} x tol {1e-4,1e-8}; \
